@@ -489,6 +489,21 @@ Proof.
     unfold shift. rewrite Ei. cbn [of_index]. unfold index, start_date. rewrite Ei. reflexivity.
 Qed.
 
+(* _TP_NEXT_PERIOD after fix 50e3447: vtl_periods_in_year is the calendar's number of periods, the step is the next period *)
+Lemma periods_in_year_impl_ok i y : periods_in_year_impl i y = periods_in_year i y.
+Proof.
+  destruct i; try reflexivity. unfold periods_in_year_impl, periods_in_year.
+  rewrite (doy_of_civil y 12 31 (valid_dec31 y)), month_offset_12. unfold days_in_year. destruct (is_leap y); reflexivity.
+Qed.
+
+Lemma macro_next_ok p : period_valid p = true -> next_impl p = next_period p.
+Proof.
+  rewrite period_valid_iff. intros V. unfold next_impl, next_period. rewrite periods_in_year_impl_ok.
+  destruct (p_num p =? periods_in_year (p_ind p) (p_year p)) eqn:E.
+  - apply Z.eqb_eq in E. replace (periods_in_year (p_ind p) (p_year p) <? p_num p + 1) with true by lia. reflexivity.
+  - apply Z.eqb_neq in E. replace (periods_in_year (p_ind p) (p_year p) <? p_num p + 1) with false by lia. reflexivity.
+Qed.
+
 Lemma macro_shift_inverse p n : period_valid p = true -> opt_bind (shift_impl p n) (fun q => shift_impl q (- n)) = Some p.
 Proof.
   intros V. rewrite (macro_shift_ok p n V). cbn [opt_bind]. rewrite (macro_shift_ok _ _ (shift_valid p n)), (shift_inverse p n V). reflexivity.
@@ -707,6 +722,18 @@ Proof.
   replace (y / 10 / 10 mod 10) with (y / 100 mod 10) by lia. reflexivity.
 Qed.
 
+(* the four-digit year field of the engine (LPAD(..., 4, '0') / {year:04d}) is the documented YYYY for every year 0..9999
+   (finite domain, checked exhaustively) *)
+Definition zfill4_ok (y : Z) : bool := String.eqb (zfill4 y) (pad4 y).
+Lemma zfill4_ok_all : all_range 0 10000 zfill4_ok = true.
+Proof. vm_compute. reflexivity. Qed.
+Lemma zfill4_pad4 y : 0 <= y <= 9999 -> zfill4 y = pad4 y.
+Proof.
+  intros H. assert (Hr : 0 <= y < 0 + 10000) by lia.
+  pose proof (all_range_sound _ _ _ zfill4_ok_all y Hr) as E. apply String.eqb_eq in E. exact E.
+Qed.
+
+
 Definition small_ok (n : Z) : bool :=
   String.eqb (dec_int n) (dec_nat n) && (if n <=? 99 then String.eqb (py02 n) (pad2 n) else true) && String.eqb (py03 n) (pad3 n).
 Lemma small_ok_all : all_range 1 366 small_ok = true.
@@ -762,14 +789,14 @@ Proof. intros V. pose proof (valid_max_num p V) as H. unfold max_num in H. destr
 Lemma valid_num_99 p : period_valid p = true -> p_ind p <> ID -> 1 <= p_num p <= 99.
 Proof. intros V Hi. pose proof (valid_max_num p V) as H. unfold max_num in H. destruct (p_ind p), (is_leap (p_year p)); try lia; congruence. Qed.
 
-(* for years 1000..9999 the Python renderers produce exactly the documented representations *)
-Lemma py_render_ok f p : period_valid p = true -> 1000 <= p_year p <= 9999 ->
+(* the Python renderers (after fix aa363dc) produce exactly the documented representations for every year 1..9999 *)
+Lemma py_render_ok f p : period_valid p = true -> 1 <= p_year p <= 9999 ->
   py_render f p = match render f p with Some s => CkOk s | None => CkErr "2-1-19-21" end.
 Proof.
   intros V Y. pose proof (valid_num_366 p V) as N. destruct (small_nums (p_num p) N) as [D1 [D2 D3]].
   pose proof (valid_num_99 p V) as N99.
-  unfold py_render, render, render_suffix, py_iso_date. rewrite (dec_int_pad4 _ Y), D1.
-  replace (p_year p <? 1000) with false by lia.
+  unfold py_render, py_render_with, render, render_suffix, py_iso_date. rewrite (zfill4_pad4 (p_year p)) by lia. rewrite D1.
+  replace (p_year p <? 1) with false by lia.
   destruct p as [y i n]. cbn [p_year p_ind p_num] in *.
   destruct f, i; cbn [option_map ind_letter]; try reflexivity;
     try (rewrite D2 by (assert (IM <> ID) by discriminate; assert (IW <> ID) by discriminate; lia); reflexivity);
@@ -777,11 +804,11 @@ Proof.
     try (rewrite render_date_doy by (try lia; apply period_valid_iff in V; exact V); reflexivity).
 Qed.
 
-Lemma py_str_canonical p : period_valid p = true -> 1000 <= p_year p <= 9999 -> py_str p = canonical p.
+Lemma py_str_canonical p : period_valid p = true -> 0 <= p_year p <= 9999 -> py_str p = canonical p.
 Proof.
   intros V Y. pose proof (valid_num_366 p V) as N. destruct (small_nums (p_num p) N) as [D1 [D2 D3]].
   pose proof (valid_num_99 p V) as N99.
-  unfold py_str, canonical, canonical_suffix. rewrite (dec_int_pad4 _ Y).
+  unfold py_str, py_str_with, canonical, canonical_suffix. rewrite (zfill4_pad4 _ Y).
   destruct p as [y i n]. cbn [p_year p_ind p_num] in *.
   destruct i; cbn [ind_letter]; try reflexivity; try (rewrite D1; reflexivity).
   - fold (py02 n). rewrite D2 by (assert (IM <> ID) by discriminate; lia). reflexivity.
@@ -789,10 +816,11 @@ Proof.
   - fold (py03 n). rewrite D3. reflexivity.
 Qed.
 
-(* below 1000 the Python side leaves the documented YYYY form *)
-Lemma py_render_low_year_refuted :
-  exists p, period_valid p = true /\ 0 <= p_year p <= 9999 /\ py_render FVtl p <> match render FVtl p with Some s => CkOk s | None => CkErr "2-1-19-21" end
-            /\ py_str p <> canonical p.
+(* regression witness: before fix aa363dc the Python side left the documented YYYY form below year 1000 *)
+Lemma py_before_fix_low_year_refuted :
+  exists p, period_valid p = true /\ 0 <= p_year p <= 9999 /\
+            py_render_before_fix FVtl p <> match render FVtl p with Some s => CkOk s | None => CkErr "2-1-19-21" end
+            /\ py_str_before_fix p <> canonical p.
 Proof. exists (mkP 1 IM 1). split; [reflexivity|]. split; [cbn [p_year]; lia|]. split; vm_compute; discriminate. Qed.
 
 (* ------------------------------------------------------------------ SQL renderers (the four vtl_period_to_ macros) on the canonical string *)
@@ -847,13 +875,13 @@ Definition lpad_ok (n : Z) : bool :=
 Lemma lpad_ok_all : all_range 1 366 lpad_ok = true.
 Proof. vm_compute. reflexivity. Qed.
 
-Lemma period_to_string_impl_ok p : period_valid p = true -> 1000 <= p_year p <= 9999 -> period_to_string_impl p = canonical p.
+Lemma period_to_string_impl_ok p : period_valid p = true -> 0 <= p_year p <= 9999 -> period_to_string_impl p = canonical p.
 Proof.
   intros V Y. pose proof (valid_num_366 p V) as N. pose proof (valid_num_99 p V) as N99. pose proof (valid_max_num p V) as M.
   assert (Hr : 1 <= p_num p < 1 + 366) by lia. pose proof (all_range_sound _ _ _ lpad_ok_all _ Hr) as L.
   unfold lpad_ok in L. apply andb_true_iff in L. destruct L as [L L3]. apply andb_true_iff in L. destruct L as [L1 L2].
   apply String.eqb_eq in L1. apply String.eqb_eq in L3.
-  unfold period_to_string_impl, canonical, canonical_suffix. rewrite (dec_int_pad4 _ Y).
+  unfold period_to_string_impl, period_to_string_with, canonical, canonical_suffix. rewrite (zfill4_pad4 _ Y).
   destruct p as [y i n]. cbn [p_year p_ind p_num] in *. unfold max_num in M.
   destruct i; cbn [ind_letter num_width]; try reflexivity.
   - rewrite L1. replace (n <=? 9) with true by lia. reflexivity.
@@ -863,8 +891,9 @@ Proof.
   - rewrite L3. reflexivity.
 Qed.
 
-Lemma period_to_string_low_year_refuted :
-  exists p, period_valid p = true /\ period_to_string_impl p <> canonical p /\ period_parse_impl (period_to_string_impl p) = None.
+Lemma period_to_string_before_fix_refuted :
+  exists p, period_valid p = true /\ period_to_string_before_fix p <> canonical p
+            /\ period_parse_impl (period_to_string_before_fix p) = None.
 Proof. exists (mkP 1 IM 1). split; [reflexivity|]. split; vm_compute; [discriminate | reflexivity]. Qed.
 
 (* ------------------------------------------------------------------ vtl_period_normalize on every documented spelling *)
@@ -941,12 +970,12 @@ Proof.
     unfold norm_num. change (3 =? 1) with false. cbv iota. rewrite L3. reflexivity.
 Qed.
 
-(* Python and SQL renderers agree (years 1000..9999) *)
+(* Python and SQL renderers agree (years 1..9999) *)
 Definition sres_ck (r : sres) : ckres := match r with SOk s => CkOk s | SNull => CkErr "NULL" | SErr => CkErr "2-1-19-21" end.
-Lemma py_sql_render_agree f p : period_valid p = true -> 1000 <= p_year p <= 9999 ->
+Lemma py_sql_render_agree f p : period_valid p = true -> 1 <= p_year p <= 9999 ->
   py_render f p = sres_ck (render_impl f (period_to_string_impl p)).
 Proof.
   intros V Y. assert (Y0 : 0 <= p_year p <= 9999) by lia.
-  rewrite (period_to_string_impl_ok p V Y), (render_impl_ok f p V Y0), (py_render_ok f p V Y).
+  rewrite (period_to_string_impl_ok p V Y0), (render_impl_ok f p V Y0), (py_render_ok f p V Y).
   destruct (render f p); reflexivity.
 Qed.
